@@ -259,14 +259,22 @@ def load():
 PARTITIONS = [[], ["a"], ["ab"], ["a", "b"], ["a", "bc"], ["ab", "c"], ["a", "b", "c"]]
 
 
-def mk(CF, c, with_unsat_flag=False, part=None):
+# a child that holds INDEPENDENT constraints ("a|b": one over a, one over b - what is left of a child after the constraint that connected
+# them was simplified away, or after a query merged two children): the states in which _split_child really splits
+SPLITTABLE = [["a|b"], ["a|b", "c"]]
+
+
+def mk(CF, c, with_unsat_flag=False, part=None, more=()):
     """an arbitrary composite satisfying Rep"""
-    shape = PARTITIONS[c.choose([True] * len(PARTITIONS), "children")] if part is None else PARTITIONS[part]
+    shapes = PARTITIONS + list(more)
+    shape = shapes[c.choose([True] * len(shapes), "children")] if part is None else PARTITIONS[part]
     cf = CF(TChild())
     cf.ghostG = []
     kids = []
     for vs in shape:
-        k = TChild([TC(set(vs), name="k")], set(vs), frozen=(c.choose([True, True], f"owned-{vs}") == 1))
+        parts = vs.split("|")
+        vs = "".join(parts)
+        k = TChild([TC(set(p), name="k") for p in parts], set(vs), frozen=(c.choose([True, True], f"owned-{vs}") == 1))
         kids.append(k)
         for v in vs:
             cf._solvers[v] = k
@@ -343,7 +351,7 @@ def ob_composite(method, tier="quick", part=None):
         TChild.all = []
         TChild.faults = method.endswith("[fault]")
         label = f"CompositeFrontend.{method}"
-        cf = mk(CF, c, with_unsat_flag=method in ("satisfiable", "eval"), part=part)
+        cf = mk(CF, c, with_unsat_flag=method in ("satisfiable", "eval"), part=part, more=SPLITTABLE if method in ("simplify", "split", "_add") else ())
         if method.endswith("[fault]"):
             # C17: a child's solver call gives up.  The error must surface as a claripy error and the composite must stay what it was:
             # Rep holds (in particular a child that was not checked successfully is still marked unchecked), so that every later answer
